@@ -123,7 +123,7 @@ META = {
         "design_ref": "DESIGN.md §4 C11",
     },
     "C12": {
-        "text": "Theorems: no operation moves the pool state backwards and only stop changes it (C12_monotone); submissions after stopping began are rejected with the queue untouched (C12_reject_after_stop); stop reports success only with state Stopped, no live worker and an empty queue (C12_accepted_run_before_ok); a successful stop leaves no waiter registered (C12_waiters_settled); a wait begun on a stopped pool fails at once (C12_wait_after_stopped). Tie: as C11, plus the Spec on the implementation's outputs (state never goes back, nothing accepted after stop, stop ok only when done, no hang). A task that submits to its own pool from inside its body is rejected like any other submitter once stopping has begun, also while stop drains it (C12_nested_submission_rejected/_accepted; pool histories with the task step N). `rtstop`: EventLoops::stop on a started runtime (1-3 loops, tasks that return, yield or sleep): success only with every accepted task run, success with a generous budget, later submissions rejected.",
+        "text": "Theorems: no operation moves the pool state backwards and only stop changes it (C12_monotone); submissions after stopping began are rejected with the queue untouched (C12_reject_after_stop); stop reports success only with state Stopped, no live worker and an empty queue (C12_accepted_run_before_ok); a successful stop leaves no waiter registered (C12_waiters_settled); a wait begun on a stopped pool fails at once (C12_wait_after_stopped). Tie: as C11, plus the Spec on the implementation's outputs (state never goes back, nothing accepted after stop, stop ok only when done, no hang). A task that submits to its own pool from inside its body is rejected like any other submitter once stopping has begun, also while stop drains it (C12_nested_submission_rejected/_accepted; pool histories with the task step N). `rtstop`: EventLoops::stop on a started runtime (1-3 loops, tasks that return, yield or sleep): success only with every accepted task run, success with a generous budget, later submissions rejected. EventLoops::stop: for every number of loops and every interleaving of start calls with arbitrarily late thread steps, a stop that reads a zero count finds every loop either not started or finished (C12_stop_sees_zero_only_when_all_exited); the pre-fix counting refuted (C12_old_stop_before_thread_ran).",
         "note": "Trusted: as C11. stop is exercised with a zero time budget (virtual clock); EventLoops::stop is covered by outcome on the wall clock (`rtstop`); stop_sync is not.",
         "design_ref": "DESIGN.md §4 C12",
     },
